@@ -25,7 +25,9 @@ ASSUMPTIONS = ["NaN is the representation of 'undefined'", "elements are strings
 
 
 def contain_counts(c, how):
-    return list(c) if how == "list" else np.array(c, dtype=np.int64)
+    if how == "list":
+        return list(c)
+    return np.array(c, dtype=np.int32 if how == "array32" else np.int64)
 
 
 def check_chao(case, rec):
@@ -109,8 +111,9 @@ def check_overlap(case, rec):
     A, B = case["A"], case["B"]
     ha, hb = case["as_a"], case["as_b"]
     fn = case["fn"]
-    sa = {e for e in A if e != "<NA>"}
-    sb = {e for e in B if e != "<NA>"}
+    keep_na = case.get("na_is_element", False)      # jaccard_index drops missing values inside Series only
+    sa = {e for e in A if e != "<NA>" or (keep_na and ha not in ("series", "series_nan"))}
+    sb = {e for e in B if e != "<NA>" or (keep_na and hb not in ("series", "series_nan"))}
     inter = sa & sb
     nt = bool(inter) and inter != sa and inter != sb
     has_na = "<NA>" in A or "<NA>" in B
@@ -146,7 +149,7 @@ def chao_case(draw, tier="quick"):
         c[1] = 0
     if draw(st.integers(0, 5)) == 0:
         c[0] = 0
-    return {"counts": c, "m": draw(st.integers(1, 20)), "as": draw(st.sampled_from(["list", "array"]))}
+    return {"counts": c, "m": draw(st.integers(1, 20)), "as": draw(st.sampled_from(["list", "array", "array32"]))}
 
 
 def enum_chao(tier):
@@ -190,6 +193,13 @@ def overlap_case(draw, tier="quick"):
             if draw(st.booleans()):
                 B = B + ["<NA>"]
     case = {"fn": fn, "A": A, "B": B, "as_a": ha, "as_b": hb}
+    if fn == "jaccard_index" and "<NA>" not in A + B and draw(st.integers(0, 2)) == 0:
+        # None inside plain collections is an element like any other for jaccard_index (only Series get their NA dropped)
+        case["A"], case["B"] = A + ["<NA>"], B + (["<NA>"] if draw(st.booleans()) else [])
+        case["as_a"], case["as_b"] = draw(st.sampled_from(["list", "tuple", "set"])), draw(st.sampled_from(["list", "tuple", "set", "frozenset"]))
+        case["na_is_element"] = True
+        case["na"] = "none"
+        return case
     if "<NA>" in A or "<NA>" in B:
         case["na"] = draw(st.sampled_from(["none", "np.nan", "float_nan", "np.float64_nan", "pd.NA"]))
         if "<NA>" in A and draw(st.booleans()):
